@@ -189,6 +189,10 @@ def queries(tier):
     # T7: higher-order reference
     qs.append(_q("hist.T7.aa", "T7", [{"variants": A}, {"variants": A}]))
     qs.append(_q("hist.T7.ab", "T7", [{"variants": A}, {"variants": B}]))
+    # T11: None / falsy results, one function kept twice with different run-time arguments
+    qs.append(_q("hist.T11.aa", "T11", [dict(E), dict(E)], nargs=True, timeout=600))
+    if tier == "thorough":
+        qs.append(_q("hist.T11.ab", "T11", [dict(E, variants=A), dict(E, variants=B, restart=True)], nargs=True, timeout=600, fixed={"G": [1, 1]}))
     # the same program living in __main__ (a script): names are resolved through the start module / start globals
     MA, MB = {"__main__": "a"}, {"__main__": "b"}
     qs.append(_q("hist.T1main.int.aa", "T1main", [{"variants": MA}, {"variants": MA}], {"G": "int"}))
